@@ -378,6 +378,19 @@ pub fn c01_families(tier: &str) -> Vec<SeqSpec> {
     abs.push(Op::Compact(None, None));
     abs.extend(reopen_ops(2));
     v.push(spec("F-bytes-small", &["T300", "T1n"], k5(), abs, if t { 5 } else { 3 }, READS).flush());
+    // key and value lengths on the boundaries of the varint length coding (127/128, 16383/16384):
+    // through the batch encoding, the WAL, the memtable, table blocks and a reopen
+    let mut av = vec![];
+    for k in 0..3u8 {
+        for c in [5u8, 6, 7, 8] {
+            av.push(Op::Put(k, c));
+        }
+        av.push(Op::Del(k));
+    }
+    av.push(Op::Compact(None, None));
+    av.extend(reopen_ops(2));
+    v.push(spec("F-varint", &["M2b", "T300n"], vec![vec![b'k'; 127], vec![b'k'; 128], vec![b'k'; 16384]], av.clone(), if t { 4 } else { 3 }, READS));
+    v.push(spec("F-varint/flush", &["T300", "T300n"], vec![vec![b'k'; 127], vec![b'k'; 128], vec![b'k'; 16384]], av, if t { 4 } else { 3 }, READS).flush());
     // a WAL written with a large memtable budget, replayed with a small one: the recovery itself
     // has to flush several memtables while reading the log
     v.push(
